@@ -253,7 +253,7 @@ def getD0 [Scalar α] : List α → Nat → α
 /-- `segpress<ix>` -/
 def evalSegpress [Scalar α] (i : Nat) (c : Ctx α) : α := evalSeg c fun _ s => getD0 s.press i
 
-/-- `data::Wells::get(well, global_index, phase)`: no status test. -/
+/-- `data::Wells::get(well, global_index, phase)` (itself without status test). -/
 def connRate [Scalar α] : List (String × WellDyn α) → String → Nat → Rt → α
   | [], _, _, _ => zero
   | (n, d) :: r, wn, g, p =>
@@ -263,13 +263,20 @@ def connRate [Scalar α] : List (String × WellDyn α) → String → Nat → Rt
       | some cd => lookupRate cd.rates p
     else connRate r wn g p
 
-/-- The loop of `region_rate<phase,injection>` over the region's connections: `Rate = q * efac`,
-clamped to zero when `(Rate > 0) != injection`. -/
+/-- `args.wells.find(well)` exists and is dynamically SHUT -/
+def dynShut : List (String × WellDyn α) → String → Bool
+  | [], _ => false
+  | (n, d) :: r, wn => if n = wn then d.shut else dynShut r wn
+
+/-- The loop of `region_rate<phase,injection>` over the region's connections: a well the results
+report as SHUT is skipped; otherwise `Rate = q * efac`, clamped to zero when
+`(Rate > 0) != injection`. -/
 def regionLoop [Scalar α] (p : Rt) (inj : Bool) (efac : String → α) (dyns : List (String × WellDyn α)) :
     List (String × Nat) → α → α
   | [], acc => acc
   | (wn, g) :: r, acc =>
-    if pos (mul (connRate dyns wn g p) (efac wn)) = inj then
+    if dynShut dyns wn then regionLoop p inj efac dyns r acc
+    else if pos (mul (connRate dyns wn g p) (efac wn)) = inj then
       regionLoop p inj efac dyns r (add acc (mul (connRate dyns wn g p) (efac wn)))
     else regionLoop p inj efac dyns r (add acc zero)
 
@@ -351,7 +358,7 @@ def unitOf : E → Option String
   | .injHist p => some (histUnit p)
   | .duration => some "time"
   | .ratel p _ => some (rateLeafUnit p)
-  | .crate p _ => some (rateLeafUnit p)        -- (the zero returns carry `rate_unit<p>` without the override)
+  | .crate p _ => some (rateLeafUnit p)        -- zero and non-zero returns alike
   | .cratel p _ => some (rateLeafUnit p)
   | .srate p => some (rateLeafUnit p)
   | .regionRate p _ => some (rateUnit p)       -- no mass-rate override in `region_rate<>`
